@@ -68,6 +68,41 @@ type scen struct {
 	sess     []sessSpec
 	chunker  [2]int // chunker kind per direction
 	chunkArg int
+	// back-pressure on the TCP connection itself: bounded in-flight buffer (conn.Write blocks when it is full) and a
+	// receiver that pauses for stallDur of virtual time every stallEvery bytes; 0 = off
+	capBytes   [2]int
+	stallEvery [2]int
+	stallDur   time.Duration
+}
+
+// relayWriter writes like a real relay (io.Copy): ONE buffer per writer, refilled for every block, and scribbled with a
+// poison pattern immediately after Write returns.  Write must have value semantics (io.Writer: "Write must not retain p").
+type relayWriter struct{ buf []byte }
+
+func (w *relayWriter) write(c net.Conn, block []byte) (int, error) {
+	if cap(w.buf) < len(block) {
+		w.buf = make([]byte, len(block))
+	}
+	b := w.buf[:len(block)]
+	copy(b, block)
+	n, err := c.Write(b)
+	for i := range b {
+		b[i] = 0xDB ^ byte(i)
+	}
+	return n, err
+}
+
+func stallChunk(inner func(int) int, every int, dur time.Duration) func(int) int {
+	consumed, next := 0, every
+	return func(avail int) int {
+		n := inner(avail)
+		consumed += n
+		if consumed >= next {
+			next = consumed + every
+			time.Sleep(dur) // the receiving TCP stack does not drain for a while (virtual time)
+		}
+		return n
+	}
 }
 
 type readRec struct {
@@ -354,6 +389,60 @@ func genBacklog(g *vh.Rng, k int, count int, stall time.Duration, d int, second 
 	return sc
 }
 
+// genSiblingStall: the TCP connection itself exerts back-pressure (bounded in-flight buffer, receiver pausing), a
+// sibling session on the same underlay streams large blocks - its output goroutine sits in conn.Write holding the
+// underlay's sendMutex - while the victim session writes nblk blocks of blk bytes from ONE reused buffer.  Segments
+// of the victim wait, queued and not yet encrypted, while the application already refills its buffer.
+func genSiblingStall(g *vh.Rng, k int, dirs int, nblk, blk int) scen {
+	var sc scen
+	if k%4 == 1 {
+		sc.pat[0] = mkPattern(g, g.Intn(5), 7, 7, false, -1, int32(g.Intn(1000)))
+		sc.pat[1] = mkPattern(g, g.Intn(5), 0, 64, false, -1, int32(g.Intn(1000)))
+	}
+	sc.mux = 1000
+	sc.chunker[0], sc.chunker[1] = 0, 0
+	sc.chunkArg = 70000
+	sc.stallDur = 4 * time.Millisecond
+	for d := 0; d < 2; d++ {
+		if dirs&(1<<d) != 0 {
+			sc.capBytes[d] = 4096
+			sc.stallEvery[d] = 9000 + g.Intn(4000)
+		}
+	}
+	var sib, vic sessSpec
+	vic.idx = 1
+	sib.w[0], vic.w[0] = []int{1}, []int{g.Intn(3)}
+	for d := 0; d < 2; d++ {
+		if dirs&(1<<d) == 0 {
+			continue
+		}
+		for i := 0; i < 6; i++ {
+			sib.w[d] = append(sib.w[d], 32768)
+		}
+		for i := 0; i < nblk; i++ {
+			vic.w[d] = append(vic.w[d], blk)
+		}
+	}
+	sib.rd[0], sib.rd[1] = []int{65536}, []int{65536}
+	vic.rd[0], vic.rd[1] = []int{4096, 65536}, []int{333, 65536}
+	sc.sess = []sessSpec{sib, vic}
+	if k%2 == 1 { // a second victim with odd sizes
+		v2 := sessSpec{idx: 2}
+		v2.w[0] = []int{5}
+		for d := 0; d < 2; d++ {
+			if dirs&(1<<d) != 0 {
+				for i := 0; i < nblk/2+1; i++ {
+					v2.w[d] = append(v2.w[d], 1+g.Intn(2*blk))
+				}
+			}
+		}
+		v2.rd[0], v2.rd[1] = []int{1000}, []int{65536}
+		sc.sess = append(sc.sess, v2)
+	}
+	sc.name = fmt.Sprintf("sibstall%d-dirs%d-%dx%d", k, dirs, nblk, blk)
+	return sc
+}
+
 type idConn interface{ ToSessionInfo() *pb.SessionInfo }
 
 func connID(c net.Conn) uint32 {
@@ -377,8 +466,15 @@ func runScenario(r *vh.Run, sc scen, g *vh.Rng) (runs []*sessRun, events []simne
 		cmu.Lock()
 		chunks[id] = recs
 		cmu.Unlock()
-		return &simnet.PipePolicy{Chunk: mkChunker(sc.chunker[0], sc.chunkArg, g.Fork(), recs[0])},
-			&simnet.PipePolicy{Chunk: mkChunker(sc.chunker[1], sc.chunkArg, g.Fork(), recs[1])}
+		var pol [2]*simnet.PipePolicy
+		for d := 0; d < 2; d++ {
+			ch := mkChunker(sc.chunker[d], sc.chunkArg, g.Fork(), recs[d])
+			if sc.stallEvery[d] > 0 {
+				ch = stallChunk(ch, sc.stallEvery[d], sc.stallDur)
+			}
+			pol[d] = &simnet.PipePolicy{Chunk: ch, Cap: sc.capBytes[d]}
+		}
+		return pol[0], pol[1]
 	}
 	rg, err := rig.Start(rig.Opts{Transport: "tcp", Users: map[string]string{user: pass}, ClientUser: user, ClientPass: pass,
 		ClientPattern: sc.pat[0], ServerPattern: sc.pat[1], Multiplex: sc.mux, Net: nw})
@@ -394,11 +490,12 @@ func runScenario(r *vh.Run, sc scen, g *vh.Rng) (runs []*sessRun, events []simne
 		defer wg.Done()
 		data := mkData(salt(sr.spec.idx, d), sum(sr.spec.w[d]))
 		off := 0
+		var rw relayWriter
 		for wi, sz := range sr.spec.w[d] {
 			if d == 0 && wi == 0 {
 				continue // the first client write is done by the opener
 			}
-			n, err := c.Write(data[off : off+sz])
+			n, err := rw.write(c, data[off:off+sz])
 			if err != nil || n != sz {
 				sr.werr[d] = fmt.Sprintf("write %d of %d bytes returned (%d, %v)", wi, sz, n, err)
 				return
@@ -480,18 +577,19 @@ func runScenario(r *vh.Run, sc scen, g *vh.Rng) (runs []*sessRun, events []simne
 		// first client write (opens the session)
 		first := sp.w[0][0]
 		data := mkData(salt(sp.idx, 0), first)
-		n, err := c.Write(data)
+		rw := &relayWriter{}
+		n, err := rw.write(c, data)
 		if err != nil || n != first {
 			sr.werr[0] = fmt.Sprintf("first write of %d bytes returned (%d, %v)", first, n, err)
 		}
 		wg.Add(2)
 		go func(sr *sessRun, c net.Conn, first int) {
-			// continue client writes after the first
+			// continue client writes after the first (same relay buffer)
 			defer wg.Done()
 			data := mkData(salt(sr.spec.idx, 0), sum(sr.spec.w[0]))
 			off := first
 			for wi, sz := range sr.spec.w[0][1:] {
-				n, err := c.Write(data[off : off+sz])
+				n, err := rw.write(c, data[off:off+sz])
 				if err != nil || n != sz {
 					sr.werr[0] = fmt.Sprintf("write %d of %d bytes returned (%d, %v)", wi+1, sz, n, err)
 					return
@@ -869,11 +967,24 @@ func main() {
 		backlog = []bl{{4104, 2500 * time.Millisecond, 0, false}, {4097, 5 * time.Second, 1, false}, {4400, 30 * time.Second, 1, true},
 			{6000, 5 * time.Second, 0, true}, {4096, 2500 * time.Millisecond, 0, false}, {4095, time.Second, 1, true}}
 	}
-	for i := 0; i < nscen+len(backlog); i++ {
+	type ss struct{ dirs, nblk, blk int }
+	sibs := []ss{{1, 8, 16384}, {2, 8, 16384}, {3, 12, 4096}, {3, 10, 1}}
+	if r.Thorough() {
+		for _, blk := range []int{1, 7, 100, 1024, 1025, 4096, 16384, 32764, 32768, 40000} {
+			for dirs := 1; dirs <= 3; dirs++ {
+				sibs = append(sibs, ss{dirs, 4 + (blk+dirs)%9, blk})
+			}
+		}
+	}
+	for i := 0; i < nscen+len(backlog)+len(sibs); i++ {
 		g := r.Rng.Fork()
 		var sc scen
 		if i < nscen {
 			sc = genScenario(g, i, r.Thorough())
+		} else if i >= nscen+len(backlog) {
+			k := i - nscen - len(backlog)
+			sc = genSiblingStall(g, k, sibs[k].dirs, sibs[k].nblk, sibs[k].blk)
+			r.Count("sibling-stall-scenario")
 		} else {
 			b := backlog[i-nscen]
 			sc = genBacklog(g, i-nscen, b.count, b.stall, b.d, b.second)
